@@ -16,6 +16,8 @@ U(i) == [op |-> "unleak_idx", v |-> 0, i |-> i]
 
 \* 2 producers x 2, 2 consumers x 2: the buffer (N=2) fills and drains inside the run
 Script_2p2c == << <<E(11), E(12)>>, <<E(21), E(22)>>, <<D, D>>, <<D, D>> >>
+Script_2p1c == << <<E(11), E(12)>>, <<E(21), E(22)>>, <<D, D>> >>
+Script_1p2c == << <<E(11), E(12), E(13)>>, <<D, D>>, <<D>> >>
 \* 3 producers colliding at the full boundary against one consumer
 Script_3p1c == << <<E(11), E(12)>>, <<E(21)>>, <<E(31)>>, <<D, D, D>> >>
 \* producer/consumer with length queries
